@@ -717,6 +717,10 @@ def mk_tree(s):
         return zero_node(int(s[1]))
     if s[0] == 'P':
         return PairNode(mk_tree(s[1]), mk_tree(s[2]))
+    if s[0] == 'F':
+        # the library's own filled subtree: both children of every pair are the SAME node object
+        from remerkleable.tree import subtree_fill_to_depth
+        return subtree_fill_to_depth(mk_tree(s[2]), int(s[1]))
     raise ValueError(s[0])
 
 
@@ -818,8 +822,18 @@ def run_tree(tr, cmds):
         elif op == 'diff':
             b = mk_tree(c[1])
             out.append('%d.diff=%s' % (k, E(lambda: ','.join(node_str(x) + '/' + node_str(y) for x, y in get_diff(n, b)))))
-        elif op == 'graft':
-            b = mk_tree(c[1])
+        elif op in ('graft', 'diffw'):
+            if op == 'graft':
+                b = mk_tree(c[1])
+            else:
+                # the second tree is derived from the first by writes (so it shares every untouched node object)
+                b = n
+                for w in c[1:]:
+                    try:
+                        b = b.setter(int(w[1]), expand=bool(int(w[2])))(mk_tree(w[3]))
+                    except Exception:
+                        pass
+                out.append('%d.diffw=%s' % (k, E(lambda: ','.join(node_str(x) + '/' + node_str(y) for x, y in get_diff(n, b)))))
 
             def graft():
                 # graft the second members into the first tree at the positions where they were found
